@@ -18,6 +18,7 @@ import os
 import pkgutil
 import random
 import re
+import time
 import warnings
 
 import networkx as nx
@@ -131,6 +132,24 @@ def nontrivial(snap):
     return len(s) > 60
 
 
+class _EntropyGen:
+    """stands for a generator created from OS entropy (`default_rng(None)`): logs every method call as a draw"""
+
+    def __init__(self, g, ev):
+        self.__dict__["_g"], self.__dict__["_ev"] = g, ev
+
+    def __getattr__(self, name):
+        a = getattr(self._g, name)
+        if callable(a):
+            ev = self._ev
+
+            def w(*x, **k):
+                ev.append(("draw", "osEntropy", name))
+                return a(*x, **k)
+            return w
+        return a
+
+
 class Recorder:
     """wraps the RNG entry points and diffs the global generator states around a call"""
     PY = sorted(TR.PY_DRAWS)
@@ -150,7 +169,9 @@ class Recorder:
             def w(*a, **k):
                 vals = list(a) + list(k.values())
                 if not vals or all(v is None for v in vals):
-                    ev.append(("draw", "osEntropy", name))
+                    return _EntropyGen(orig(*a, **k), ev)      # creation is not a draw; its use is
+                if len(vals) == 1 and isinstance(vals[0], _EntropyGen):
+                    return vals[0]                             # default_rng(generator) is that generator
                 return orig(*a, **k)
         else:
             def w(*a, **k):
@@ -300,6 +321,8 @@ class Checker:
             ctx.stats[f"fn:{name}"] += 1
             ctx.stats[f"perturbation:{mode}"] += 1
             if k1 == "raise" and k2 == "raise" and s1 == s2:
+                if call(fn, expr, seed, record=False)[0] == "ok":
+                    raise Infra(f"wrapping the RNG entry points changed the outcome of {name}(*{expr}, seed={seed}): {s1}")
                 ctx.stats["outcome:raises"] += 1
                 return None
             if (k1, s1) != (k2, s2):
@@ -385,6 +408,7 @@ def run(ctx):
         if not good:
             raise Infra("generated SeedTable.lean / driver does not build: " + out[-800:])
         build_errors = _failed_theorems(ctx)
+        _partial_audit(ctx)
     info, table_public = table_facts(ctx, tab)
     ill = sorted(n for n, i in info.items() if not i["ok"])
     if ill:
@@ -440,8 +464,11 @@ def run(ctx):
         if n in concrete or n not in grid:
             continue
         # targeted search: more seeds, more repetitions (entropy-dependent results need not differ every time)
+        t_end = time.time() + ctx.n(12, 240)
         for expr in grid[n]:
             for s in SEEDS_THOROUGH + [ctx.rng.randrange(2 ** 32) for _ in range(ctx.n(4, 20))]:
+                if time.time() > t_end:
+                    break
                 ctx.stats["targeted-search"] += 1
                 if ch.check(n, public[n], expr, s, repeats=ctx.n(4, 8), validate=False) is False:
                     break
@@ -497,6 +524,41 @@ def _callers_concrete(n, tab, concrete):
         if e["key"] in concrete and any(x[0] in ("forwardSeed", "callUnseeded") and x[1] == n for x in e["effs"]):
             return True
     return False
+
+
+def _partial_audit(ctx):
+    """Props/C17.lean did not build as a whole (the table instance fails on this source).  Elaborate the file once more
+    with `#print axioms` appended: Lean keeps going after a failed proof (the failed theorem is admitted with `sorryAx`,
+    and so is everything that uses it), so the theorems that still check are exactly those whose axioms are admissible."""
+    import subprocess
+    from ..core import ALLOWED_AXIOMS, OUT, theorems_of
+    thms = theorems_of("XgiModel.Props.C17")
+    src = open(os.path.join(LEAN, "XgiModel", "Props", "C17.lean")).read()
+    tmp = os.path.join(OUT, "C17_partial_audit.lean")
+    os.makedirs(OUT, exist_ok=True)
+    with open(tmp, "w") as f:
+        f.write(src + "\n" + "".join(f"#print axioms {t}\n" for t in thms))
+    try:
+        p = subprocess.run(["lake", "env", "lean", tmp], cwd=LEAN, capture_output=True, text=True, timeout=900)
+    except subprocess.TimeoutExpired:
+        return
+    flat = re.sub(r"\s+", " ", p.stdout + p.stderr)
+    done = []
+    for t in thms:
+        m = re.search(r"'" + re.escape(t) + r"' depends on axioms: \[([^\]]*)\]", flat)
+        if m and {a.strip() for a in m.group(1).split(",") if a.strip()} <= ALLOWED_AXIOMS:
+            done.append(t)
+        elif re.search(r"'" + re.escape(t) + r"' does not depend on any axioms", flat):
+            done.append(t)
+    from ..core import FORBIDDEN, _strip_comments, import_closure, module_file
+    for mod in import_closure("XgiModel.Props.C17"):
+        for line in _strip_comments(open(module_file(mod)).read()).split("\n"):
+            if FORBIDDEN.search(line):
+                done = []
+                ctx.audit["problems"].append(f"forbidden token in {mod}: {line.strip()[:80]}")
+    ctx.audit["theorems"], ctx.audit["discharged"] = thms, done
+    ctx.extra["partial_audit"] = ("Props/C17.lean fails as a module; theorems still checking when elaborated with error recovery: "
+                                  + ", ".join(done))
 
 
 def _failed_theorems(ctx):
